@@ -5,6 +5,10 @@ cd "$(dirname "$0")"
 export GOFLAGS=-mod=mod GOPROXY=off GOSUMDB=off GOTOOLCHAIN=local CGO_ENABLED=1
 export VERIF_ROOT="$(pwd)"
 mkdir -p .build .scratch evidence replays
+# per-run scratch (logs, leveldb conformance files), removed when the run ends
+export VERIF_SCRATCH="$VERIF_ROOT/.scratch/run-$$"
+mkdir -p "$VERIF_SCRATCH"
+trap 'rm -rf "$VERIF_SCRATCH"' EXIT
 build() {
   cp /repo/go.sum go.sum 2>/dev/null
   ( go run ./cmd/vrewrite -repo /repo -hooks "$VERIF_ROOT/hooks" -out "$VERIF_ROOT/.build/overlay" ) >.build/rewrite.log 2>&1 || { echo "HARNESS-ERROR rewrite"; cat .build/rewrite.log; exit 2; }
@@ -23,13 +27,13 @@ case "${1:-}" in
     ;;
   replay)
     build
-    exec ./.build/vcheck replay "$2"
+    ./.build/vcheck replay "$2"; exit $?
     ;;
   C[0-9][0-9])
     build
     case "$1" in C12|C20) build_race ;; esac
     tier="${2:-${VERIF_TIER:-quick}}"
-    exec ./.build/vcheck check "$1" --tier "$tier"
+    ./.build/vcheck check "$1" --tier "$tier"; exit $?
     ;;
   *) echo "usage: run.sh setup | <Cxx> quick|thorough | replay <file>"; exit 2 ;;
 esac
